@@ -347,18 +347,21 @@ def run_scenarios(rep, rng, binp, modnames, mod_ir, failing, drift, quick):
         for _ in range(60 if quick else 600):   # wider steps, longer scripts
             L = rng.randint(1, 9)
             extra.append(tuple(rng.choice((-3, -2, -1, 0, 0, 1, 2, 5)) for _ in range(L)))
+        for _ in range(40 if quick else 400):   # the clock is set back / forward by seconds (operator or NTP corrections), around the 1 s mark too
+            L = rng.randint(1, 6)
+            extra.append(tuple(rng.choice((-3_000_000_000, -1_000_000_001, -1_000_000_000, -999_999_999, -1, 0, 1, 1_000_000_000, 2_500_000_000)) for _ in range(L)))
         scen = list(mine) + extra
         nchunks = 8 if len(scen) > 400 else 2
         for ci in range(nchunks):
             part = scen[ci::nchunks]
             lines, items, info = [], [], []
             for k, steps in enumerate(part):
-                base = 1000 * (k + 1)
+                base = 100_000_000_000 * (k + 1)          # nanoseconds; far enough apart for regressions of several seconds
                 rd, cur = [], base
                 for s in steps:
                     cur += s
                     rd.append(cur)
-                dflt = base + 500
+                dflt = base + 30_000_000_000
                 lines += ["call %d %d" % (dflt, base), "call %d %s" % (dflt, ",".join(map(str, rd)))]
                 items += [([base], dflt, 1), (rd, dflt, 1)]
                 info += [("prime", [base], dflt), ("call", rd, dflt)]
